@@ -128,9 +128,28 @@ def run_impl(case):
         except Exception:
             pass
         after = [[codec.enc_val(v) for v in (r.data if isinstance(r.data, list) else [r.data])] for r in regs]
-        return {"custom_properties": cp, "columns": cols, "nrows": nrows, "cells": cells, "data_unchanged": before == after}
+        out = {"custom_properties": cp, "columns": cols, "nrows": nrows, "cells": cells, "data_unchanged": before == after}
+        # the view asked for AGAIN from the same file: after the first frame was edited, and after the
+        # registers of the type exchanged their values in place (first <-> last); each view must show
+        # what the registers hold at that moment
+        out["second_view"] = view_vs_registers(f, t)
+        mine = [r for r in regs if isinstance(r, t) and isinstance(r.data, list)] if isinstance(t, type) else []
+        if len(mine) >= 2:
+            mine[0].data, mine[-1].data = mine[-1].data, mine[0].data
+        out["third_view"] = view_vs_registers(f, t)
+        return out
     except Exception as e:
         return codec.enc_exc(e)
+
+
+def view_vs_registers(f, t):
+    """[view as (columns, cells)] and the same table taken directly from the registers of the type"""
+    df = f._as_df(t)
+    got = [[codec.enc_str(str(c)) for c in df.columns], [[enc_cell(df.iloc[i, j]) for j in range(df.shape[1])] for i in range(int(df.shape[0]))]]
+    regs = list(f.data.of_type(t))
+    cols = regs[0].custom_properties if regs else []
+    direct = [[codec.enc_str(c) for c in cols], [[enc_cell(getattr(r, c)) for c in cols] for r in regs] if cols else []]
+    return {"got": got, "direct": direct}
 
 
 def request(case, obs):
@@ -157,6 +176,10 @@ def judge(case, obs, resp):
         return {"status": "oracle", "why": f"{bad} wrong: got { {k: show(obs.get(k)) for k in bad} } required { {k: show(m[k]) for k in bad} }"}
     if not resp["agree"]:
         return {"status": "corr", "why": "model and implementation disagree"}
+    for k, what in (("second_view", "asked for again after the first frame was edited"), ("third_view", "asked for again after the first and last register of the type exchanged their values")):
+        v = obs.get(k)
+        if v and v["got"] != v["direct"]:
+            return {"status": "oracle", "why": f"the view {what} shows columns {show(v['got'][0])} cells {v['got'][1]}; the registers hold columns {show(v['direct'][0])} cells {v['direct'][1]}"}
     return {"status": "ok", "why": ""}
 
 
